@@ -162,6 +162,8 @@ class RecDB(object):
                 r.ncommit += 1
                 if r.crash_at is not None and r.ncommit == r.crash_at:
                     r.crash_raised = True
+                    if getattr(r, "real_kill", False):
+                        os._exit(77)
                     raise Crash()
         else:
             self._conn.commit()
@@ -438,6 +440,8 @@ class Runner(object):
         self.crash_raised = False
         self.crash_at = crash_k if (crash_k is not None and crash_k > 0) else None
         if crash_k == 0:
+            if getattr(self, "real_kill", False):
+                os._exit(77)
             self._teardown()
             self._startup_after_crash()
             return self._finish()
@@ -450,6 +454,8 @@ class Runner(object):
             return self._finish()
         self.crash_at = None
         if crash_k is not None:
+            if getattr(self, "real_kill", False):
+                os._exit(77)
             self._teardown()
             self._startup_after_crash()
         return self._finish()
